@@ -42,10 +42,18 @@ def thin_event(darsia, rng, tid, m1, m2, big=False):
     mode = rng.choice(["cell", "subcell", "rt"])
     method = rng.choice(["newton", "bregman"])
     mob = rng.choice(MOBS)
-    e = {"tid": tid, "op": "thin", "n": n, "shape": list(shape), "h": h, "a": a, "m1": list(m1), "m2": list(m2), "mode": mode, "method": method, "mob": mob, "raised": 0, "d2": -1}
+    # the unique flux is the prefix sum of the mass difference; where it vanishes at an interior face Newton's mobility is 1/regularization
+    pre = np.cumsum(np.array(m2) - np.array(m1))[:-1]
+    zface = bool(np.any(pre == 0))
+    reg = rng.choice(["default", "1e-10"]) if method == "newton" else "default"
+    e = {"tid": tid, "op": "thin", "n": n, "shape": list(shape), "h": h, "a": a, "m1": list(m1), "m2": list(m2), "mode": mode, "method": method, "mob": mob, "raised": 0, "d2": -1,
+         "reg": reg, "cls": "vanishing-face-flux:default-regularization" if (method == "newton" and zface and reg == "default") else "regular"}
     try:
         img1, img2 = make_images(darsia, shape, [float(x) for x in hs], np.array(m1, dtype=float).reshape(shape), np.array(m2, dtype=float).reshape(shape))
-        d = float(solve(darsia, img1, img2, method, mode, mob, extra={"num_iter": 8}))
+        extra = {"num_iter": 8}
+        if reg != "default":
+            extra["regularization"] = float(reg)
+        d = float(solve(darsia, img1, img2, method, mode, mob, extra=extra))
         e["d2"] = int(round(2 * d)) if abs(2 * d - round(2 * d)) <= 1e-5 * (1 + abs(2 * d)) else -1
         e["d_6"] = d6(d) if abs(d) < 2000 else -1
     except Exception as ex:  # noqa
@@ -198,7 +206,7 @@ def run(ck, replay=None):
     for b in bad:
         e = b["event"]
         if e["op"] == "thin":
-            sig = f"C05:{b['clause']}:thin:{e['mode']}:{e['method']}:{e['mob']}"
+            sig = f"C05:{b['clause']}:thin:{e['mode']}:{e['method']}:{e['mob']}:{e['cls']}"
         elif e["op"] == "relations":
             sig = f"C05:{b['clause']}:{e['method']}:{e['l1']}:{e['mob']}"
         else:
